@@ -45,7 +45,9 @@ def extract(config="default", repo=REPO, extra_cargo_args=(), extra_rustflags=""
         print("extract: driver not built; run setup (make -C /verif setup)", file=sys.stderr)
         sys.exit(2)
     os.makedirs(WORK, exist_ok=True)
-    lock = open(os.path.join(WORK, ".lock"), "w")
+    # VERIF_LANE (development only: several scratch trees analysed in parallel) gives each lane its own lock and cargo target dir
+    lane = os.environ.get("VERIF_LANE", "")
+    lock = open(os.path.join(WORK, ".lock" + ("-" + lane if lane else "")), "w")
     fcntl.flock(lock, fcntl.LOCK_EX)
     try:
         hsh = repo_hash(repo)
@@ -61,10 +63,11 @@ def extract(config="default", repo=REPO, extra_cargo_args=(), extra_rustflags=""
             for d in os.listdir(fd):
                 if d.startswith(config + "-"):
                     m = os.path.join(fd, d, "COMPLETE")
-                    if not os.path.exists(m) or time.time() - os.path.getmtime(m) > 1800:
+                    young = time.time() - os.path.getmtime(os.path.join(fd, d)) < 600      # may be another lane's extraction in progress
+                    if (not os.path.exists(m) and not (lane and young)) or (os.path.exists(m) and time.time() - os.path.getmtime(m) > 1800):
                         shutil.rmtree(os.path.join(fd, d), ignore_errors=True)
         os.makedirs(out, exist_ok=True)
-        target = os.path.join(WORK, "target-" + config)
+        target = os.path.join(WORK, "target-" + config + ("-" + lane if lane else ""))
         # cargo must not replay a cached run of the workspace members: remove their fingerprints
         for prof in ("debug",):
             fp = os.path.join(target, prof, ".fingerprint")
